@@ -80,7 +80,7 @@ def trusted_base(m):
         if f["mode"] == "assumed":
             tb.append("/repo %s: contract assumed, body not verified (%s)" % (key, f.get("reason", "")))
         for rw in f.get("rewrites", []):
-            if rw.startswith("R6"):
+            if rw.startswith("R6") and not f.get("expanded_everywhere"):     # its callers carry the site (R20)
                 tb.append("/repo %s: %s" % (key, rw))
     return sorted(set(tb))
 
